@@ -3,7 +3,7 @@
    One lemma per grammar function, in dependency order; [Good R mu] is the induction hypothesis
    on the recursion measure 3*(remaining tokens) + rank. *)
 From Coq Require Import NArith Arith List Bool Lia.
-From OQ3 Require Import gen.Kinds Model.Parser Model.Grammar Proofs.WP.
+From OQ3 Require Import gen.Kinds gen.Ops Model.Parser Model.Grammar Proofs.WP.
 Import ListNotations.
 Local Open Scope nat_scope.
 
@@ -602,7 +602,7 @@ Qed.
 Lemma lhs_A ps p :
   (p <= n -> lvl p 0 <= mu) -> W (lhs inp R ps) (Post_atom p) p.
 Proof.
-  intros Hl. unfold lhs. wp0.
+  intros Hl. unfold lhs, unary_bp. wp0.
   - exfalso. apply (kin_prefix_ne _ Heqb). auto.
   - wguard Hg. wcall (good_expr_bp _ _ HR). wp. split; intros; lia.
   - wcall atom_expr_A as r q HP. destruct r as [[l bl]|].
@@ -611,14 +611,45 @@ Proof.
     + wp. destruct HP as [_ HP]. split; [congruence|auto].
 Qed.
 
+(* every arm of the (generated) operator table names an operator that is really there: its guard,
+   or the current single-character kind itself.  Re-checked by computation whenever the table is
+   regenerated from expressions.rs. *)
+Definition simple_b (k : N) : bool :=
+  match assocN k composite2, assocN k composite3 with None, None => true | _, _ => false end.
+Lemma simple_b_simple k : simple_b k = true -> simple k.
+Proof. unfold simple_b, simple. destruct (assocN k composite2); [discriminate|]. destruct (assocN k composite3); [discriminate|auto]. Qed.
+Definition arm_ok (a : N * option N * option (nat * N * bool)) : bool :=
+  let '(c, g, res) := a in
+  match res with
+  | None => true
+  | Some (_, op, _) =>
+      negb (N.eqb op K_EOF) && match g with Some o => N.eqb op o | None => N.eqb op c && simple_b c end
+  end.
+Lemma op_arms_ok : forallb arm_ok op_arms = true.
+Proof. vm_compute. reflexivity. Qed.
+Lemma interp_ops_spec arms p :
+  forallb arm_ok arms = true ->
+  let '(b, op, r) := interp_ops inp arms p in
+  1 <= b -> nth_at_pure p 0 op = true /\ op <> K_EOF.
+Proof.
+  induction arms as [|[[c g] res] arms IH]; intros Hok; cbn [interp_ops].
+  - unfold NOT_AN_OP. intros Hb. lia.
+  - cbn [forallb] in Hok. apply andb_true_iff in Hok. destruct Hok as [Ha Hr].
+    destruct (keq (kind_at p) c && match g with Some o => nth_at_pure p 0 o | None => true end) eqn:E;
+      [|apply IH; exact Hr].
+    destruct res as [[[b op] r]|]; [|unfold NOT_AN_OP; intros Hb; lia].
+    intros Hb. apply andb_true_iff in E. destruct E as [Ek Eg].
+    cbn [arm_ok] in Ha. apply andb_true_iff in Ha. destruct Ha as [Hno Hop].
+    split; [|apply N.eqb_neq; apply negb_true_iff; exact Hno].
+    destruct g as [o|].
+    + apply N.eqb_eq in Hop. subst op. exact Eg.
+    + apply andb_true_iff in Hop. destruct Hop as [Hop Hs]. apply N.eqb_eq in Hop. subst op.
+      apply at_of_keq; [apply simple_b_simple; exact Hs|exact Ek].
+Qed.
 Lemma current_op_val_spec p :
   let '(b, op, r) := current_op_val inp p in
   1 <= b -> nth_at_pure p 0 op = true /\ op <> K_EOF.
-Proof.
-  unfold current_op_val, NOT_AN_OP.
-  repeat match goal with |- context [if ?c then _ else _] => destruct c eqn:? end;
-    intros Hb; try lia; (split; [first [assumption | apply at_of_keq; [simp_k|assumption]] | kne]).
-Qed.
+Proof. apply interp_ops_spec. exact op_arms_ok. Qed.
 
 Lemma WP_current_op (Q : nat * N * bool -> nat -> Prop) p :
   Q (current_op_val inp p) p -> W (current_op inp) Q p.
